@@ -388,3 +388,34 @@ Proof.
       - apply IH. discriminate. }
     exact (G _ _ _ L ltac:(discriminate) eq_refl).
 Qed.
+
+(* ---------------------------------------------------------------- ASCII input: structural specifications *)
+(* On 7-bit input the three functions are the textbook ones, defined by structural recursion with no fuel. *)
+Definition ascii7 (s : str) : bool := forallb (fun c => c <? 128) s.
+Fixpoint drop_spaces (s : str) : str :=
+  match s with c :: r => if is_ascii_space c then drop_spaces r else s | [] => [] end.
+(* maximal runs of bytes that are not white space; [cur] = the run being collected, reversed *)
+Fixpoint nonspace_runs (cur s : str) : list str :=
+  match s with
+  | [] => fs_flush cur
+  | c :: r => if is_ascii_space c then fs_flush cur ++ nonspace_runs [] r else nonspace_runs (c :: cur) r
+  end.
+
+Lemma strip_space1_ascii c r : (c <? 128) = true -> strip_space1 (c :: r) = if is_ascii_space c then Some r else None.
+Proof. intros H. cbn [strip_space1]. rewrite H. reflexivity. Qed.
+
+Theorem trim_left_ascii s : ascii7 s = true -> trim_left s = drop_spaces s.
+Proof.
+  induction s as [|c r IH]; intros H; [reflexivity|]. cbn [ascii7 forallb] in H. apply andb_true_iff in H. destruct H as [Hc Hr].
+  rewrite trim_left_unfold, (strip_space1_ascii c r Hc). cbn [drop_spaces].
+  destruct (is_ascii_space c); [exact (IH Hr) | reflexivity].
+Qed.
+Theorem fields_ascii s : ascii7 s = true -> fields s = nonspace_runs [] s.
+Proof.
+  rewrite fields_is_acc. generalize (@nil byte) as cur. induction s as [|c r IH]; intros cur H.
+  - apply fields_acc_nil.
+  - cbn [ascii7 forallb] in H. apply andb_true_iff in H. destruct H as [Hc Hr]. cbn [nonspace_runs].
+    pose proof (strip_space1_ascii c r Hc) as E. destruct (is_ascii_space c).
+    + rewrite (fields_acc_space cur _ r E). f_equal. exact (IH [] Hr).
+    + rewrite (fields_acc_byte cur c r E). exact (IH (c :: cur) Hr).
+Qed.
